@@ -16,7 +16,7 @@ for pid in sorted(CHECKS):
         replay_cmd_template="./check %s --replay {path}" % pid,
         engine=c.get("engine", "rapidcheck"),
         level_claimed=dict(category=c.get("level", "exploration"), text=c["level_text"],
-                           design_ref=c.get("design_ref", "DESIGN.md section 4, " + pid)),
+                           design_ref=c.get("design_ref", "DESIGN.md section 4 (design) and sections 8.2-8.3 (as built, findings), " + pid)),
         level_note=c["level_note"],
         technique=c["technique"],
     ))
